@@ -24,6 +24,19 @@ pub fn js_reserved_legal_in_rust() -> Vec<&'static str> {
     JS_RESERVED.iter().copied().filter(|w| is_rust_ident(w)).collect()
 }
 
+/// reserved words dodged the Rust way (`try_`, `_delete`): camelCase drops the underscore again
+pub fn js_reserved_with_underscore() -> Vec<String> {
+    let mut v = vec![];
+    for w in JS_RESERVED {
+        for cand in [format!("{}_", w), format!("_{}", w), format!("{}__", w)] {
+            if is_rust_ident(&cand) {
+                v.push(cand);
+            }
+        }
+    }
+    v
+}
+
 pub const SNAKE_EDGE: &[&str] = &["_x", "a__b", "x_", "_", "v2", "x1_y2", "http2_server", "a", "id", "user_id", "first_name", "a_b_c_d", "is_ok", "__private", "value_", "r#type", "r#match", "r#fn"];
 
 /// `_` alone is not an identifier for a parameter pattern binding in our renderer (it is a
@@ -90,7 +103,7 @@ pub fn is_usable_type_name(n: &str) -> bool {
 
 /// event names over the characters Tauri allows: alphanumerics, '-', '/', ':', '_'
 pub fn random_event_name(t: &mut Tape) -> String {
-    const PLAIN: &[&str] = &["update", "user-updated", "progress", "download_done", "app://ready", "user:login", "a/b", "x", "data-changed", "tick2"];
+    const PLAIN: &[&str] = &["update", "user-updated", "progress", "download_done", "app://ready", "user:login", "a/b", "x", "data-changed", "tick2", "user-updated-2", "user_updated", "user-updated2", "progress-2", "x2", "x-2"];
     if t.chance(1, 2) {
         return t.choose(PLAIN).to_string();
     }
